@@ -182,7 +182,7 @@ Section NewGroup.
   Hypothesis I : Inv d.
   Hypothesis Hnodes : d_nodes d <> [].
   Hypothesis Hview : In (pview r) (views d).
-  Hypothesis Ht : (t <= c06_max_nano_time + 1)%Z.
+  Hypothesis Ht : (min_unix_nano <= t <= c06_max_nano_time + 1)%Z.
   Hypothesis Hcov : existsb (g_covers t) (rp_groups r) = false.
 
   Let g := new_group d r t.
@@ -211,9 +211,11 @@ Section NewGroup.
   Proof.
     destruct view_r_ok as [Hsg [Hr Hd]].
     pose proof (time_truncate_bounds t (rp_sgdur r) Hsg) as Hb.
-    set (s0 := time_truncate t (rp_sgdur r)) in *.
-    set (e0 := if (c06_max_nano_time <? s0 + rp_sgdur r)%Z then (c06_max_nano_time + 1)%Z else (s0 + rp_sgdur r)%Z).
-    assert (He0 : (t <= e0)%Z) by (unfold e0; destruct (c06_max_nano_time <? s0 + rp_sgdur r)%Z; lia).
+    set (s00 := time_truncate t (rp_sgdur r)) in *.
+    set (e0 := if (c06_max_nano_time <? s00 + rp_sgdur r)%Z then (c06_max_nano_time + 1)%Z else (s00 + rp_sgdur r)%Z).
+    set (s0 := if (s00 <? min_unix_nano)%Z then min_unix_nano else s00).
+    assert (He0 : (t <= e0)%Z) by (unfold e0; destruct (c06_max_nano_time <? s00 + rp_sgdur r)%Z; lia).
+    assert (Hs0 : (s0 <= t)%Z) by (unfold s0; destruct (s00 <? min_unix_nano)%Z; lia).
     destruct (clip_range_spec t (rp_groups r) s0 e0) as (A & B & C); [lia|auto| |].
     { intros h Hh L. split; [apply Hr; auto|].
       rewrite <- not_true_iff_false. intros Hc.
@@ -333,7 +335,7 @@ Proof.
 Qed.
 
 Lemma Created_Inv d d' r t :
-  Inv d -> (t <= c06_max_nano_time + 1)%Z ->
+  Inv d -> (min_unix_nano <= t <= c06_max_nano_time + 1)%Z ->
   Created d d' r (new_group d r t) -> existsb (g_covers t) (rp_groups r) = false -> Inv d'.
 Proof.
   intros I Ht C Hcov. set (g := new_group d r t) in *.
@@ -402,7 +404,7 @@ Proof.
 Qed.
 
 Lemma create_shard_group_Covered d dbn pol t d1 :
-  Inv d -> (t <= c06_max_nano_time)%Z -> create_shard_group d dbn pol t = Ok d1 -> Covered d1 dbn pol t.
+  Inv d -> (min_unix_nano <= t <= c06_max_nano_time)%Z -> create_shard_group d dbn pol t = Ok d1 -> Covered d1 dbn pol t.
 Proof.
   intros I Ht. unfold create_shard_group. destruct (d_nodes d) as [|n0 ns] eqn:En.
   { intros H; inversion H; subst. left; auto. }
@@ -427,9 +429,11 @@ Proof.
         exists x. intuition. }
       pose proof (inv_views _ I) as Hv. rewrite Forall_forall in Hv. destruct (Hv _ Hview) as [Hsg _]. cbn in Hsg.
       pose proof (time_truncate_bounds t (rp_sgdur r) Hsg) as Hb.
-      set (s0 := time_truncate t (rp_sgdur r)) in *.
-      set (e0 := if (c06_max_nano_time <? s0 + rp_sgdur r)%Z then (c06_max_nano_time + 1)%Z else (s0 + rp_sgdur r)%Z).
-      assert (He0 : (t < e0)%Z) by (unfold e0; destruct (c06_max_nano_time <? s0 + rp_sgdur r)%Z; lia).
+      set (s00 := time_truncate t (rp_sgdur r)) in *.
+      set (e0 := if (c06_max_nano_time <? s00 + rp_sgdur r)%Z then (c06_max_nano_time + 1)%Z else (s00 + rp_sgdur r)%Z).
+      set (s0 := if (s00 <? min_unix_nano)%Z then min_unix_nano else s00).
+      assert (He0 : (t < e0)%Z) by (unfold e0; destruct (c06_max_nano_time <? s00 + rp_sgdur r)%Z; lia).
+      assert (Hs0 : (s0 <= t)%Z) by (unfold s0; destruct (s00 <? min_unix_nano)%Z; lia).
       destruct (clip_range_bounds t (rp_groups r) s0 e0) as [A B]; [lia|auto|].
       assert (Es : g_start g = fst (clip_range t (rp_groups r) (s0, e0))) by reflexivity.
       assert (Ee : g_end g = snd (clip_range t (rp_groups r) (s0, e0))) by reflexivity.
